@@ -7,6 +7,30 @@ BASELINE_OFF = ("cd /repo && GOFLAGS=-mod=mod GOPROXY=off GOSUMDB=off GOTOOLCHAI
                 "go test -json -vet=off -count=1 -timeout 25m ./...")
 
 CHECKS = {
+ "C04": dict(level="exploration", design="5/C04", engine="engineA",
+   text="2..4 real Stack handles run scripts on one real directory under a token-passing scheduler that decides, at every hooked filesystem call, which process goes next: pause sweeps (A parked before each of its filesystem operations while the others run) over ordered pairs of operation kinds and several initial stacks, nested sweeps over triples, and PCT/uniform random schedules. Oracles: M-commit on every rename onto tables.list (new view = old view, or old view + the committer's transaction), Add result <=> committed exactly once, final fresh view = fold of commits, porcupine linearizability check of the client-boundary history.",
+   note="Processes are goroutines of one OS process; in-memory code between two filesystem calls runs atomically (exact for separate processes, which share no memory). Real kernel semantics for O_EXCL/rename/unlink (tmpfs). Verdict covers the schedules actually run.",
+   technique="runtime monitoring: online refinement monitor on hooked filesystem operations under a seeded scheduler + offline linearizability checking (porcupine) of recorded histories"),
+ "C05": dict(level="exploration", design="5/C05", engine="engineA",
+   text="Same engine; after EVERY single filesystem operation of every process the directory is checked: tables.list parsed independently, every named file exists and passes the independent decoder, hash size matches, ranges strictly increase, a fresh NewStack succeeds and shows the last committed state; no listed table is ever removed. Workload biased to 2..3 concurrent compactions of disjoint/overlapping ranges.",
+   note="A process crash does not change the directory, so the state checked after operation k is the state a crash after k leaves. Same engine assumptions as C04.",
+   technique="runtime monitoring: invariant checked at every hooked filesystem operation (independent list parser + decoder + fresh open) under seeded schedules"),
+ "C06": dict(level="fault_enumeration", design="5/C06", engine="engineA",
+   text="For every explored operation (12 kinds x 6 initial stacks x continuations) the process is killed immediately before EVERY one of its hooked filesystem operations (table-body writes included): descriptors closed, no cleanup runs. At the crash and after every earlier operation a fresh open must succeed and show exactly the last committed state (which M-commit proved to be before or after the call); a second process then continues (reads must succeed, writers may be refused only while a dead process's lock exists) and the final view must equal the model.",
+   note="Process crashes only (no torn writes, no power loss - excluded by the property). Enumeration is complete per explored operation, not over all operations/stacks.",
+   technique="runtime monitoring with fault injection: crash enumeration at every hooked filesystem operation along observed executions, oracle = fresh open vs. commit history"),
+ "C08": dict(level="exploration", design="5/C08", engine="engineA",
+   text="Same engine; M-lock ledger (path -> creator, inode) updated at every create/remove/rename of a *.lock path: a create while a live holder exists, a removal/rename by a non-creator or of a different inode are violations; at every commit the new tables.list bytes must equal what the committer wrote through its own lock-file descriptor. Workload: contention triples on the re-lock, overlapping compactions, crash of a lock holder followed by other writers, random 3-4 writer schedules.",
+   note="Same engine assumptions as C04. Does not require that compaction uses per-table locks at all, only observable exclusivity and ownership.",
+   technique="runtime monitoring: ownership ledger on hooked lock-file operations under seeded schedules"),
+ "C10": dict(level="exploration", design="5/C10", engine="engineA",
+   text="Same engine; after every completed call of a handle and at read calls placed between other processes' operations the handle's full scans, ReadRef and RefsFor must succeed, its table names must equal ONE recorded version of tables.list (not older than before) and the scans must equal a fresh reader's view of that version. Workload: the reading handle is paused at each hook of reload (after the list read, between table opens) while 1-3 others run sequences of Add + compaction.",
+   note="Same engine assumptions as C04. Does not require that the handle sees the newest version.",
+   technique="runtime monitoring: snapshot-consistency monitor (handle view vs. recorded list versions) under seeded schedules"),
+ "C16": dict(level="exploration", design="5/C16", engine="engineA",
+   text="Same engine; M-own ledger of every file a process created or became responsible for (locks, temp tables, tables renamed into place but not yet listed, tables its commit dropped from the list): empty whenever the process returns from a call; at global quiescence the directory is exactly tables.list + listed tables (before and after closing the handles). Crash part: after another process was killed at every point of its operation, Clean/Close of a live process never remove a listed table, do not panic and succeed. Plus sequential multi-handle histories with failed Adds, stale compactions and empty stacks.",
+   note="Same engine assumptions as C04. A Clean that fails because it races with another live process's cleanup is not counted (the property only demands release of what was taken).",
+   technique="runtime monitoring: resource-ownership ledger checked at every idle point and at quiescence, with crash injection"),
  "C03": dict(level="exploration", design="5/C03",
    text="Table sets of 1..6 tables with increasing update-index ranges over a small overlapping key alphabet (updates, deletions, re-creations, log tombstones with old update indices) are read through the raw merged view and through Stack.Merged() over hand-placed files; full scans and seeks at every key class are compared with the newest-wins overlay computed from the inputs.",
    note="Trusts the generator and the overlay reference (gen/multi.go).",
